@@ -4,7 +4,7 @@ import subprocess, re, sys, tempfile, os
 TMP = tempfile.mkdtemp()
 HDR = '''From Coq Require Import String.
 From PS Require Import Base GFDefs PackDefs StoreDefs MiscDefs StrDefs LangDefs ApiDefs SpecDefs SpecApi.
-From PS Require Import GFProofs MiscProofs CoinProofs PackProofs PackTheorems StoreProofs SeedProofs ApiLemmas RefineProofs.
+From PS Require Import GFProofs MiscProofs CoinProofs PackProofs PackTheorems StoreProofs SeedProofs ApiLemmas RefineProofs RoundTrip.
 From PS Require Import StrProofs CTieBase CTieLang CTiePhrase CTiePhraseEv CTieSplit CTieApi CTieDecode CTieEncode CTieLocals CTieInject CTieCmp CTieSearch CTieClosed CodeTheorems.
 From PS.Gen Require Import Consts PrivConsts Langs.
 From PS.Gen Require CFuns CApi.
@@ -23,13 +23,14 @@ def typ(name):
 IMPORTS = '''
 (* ---- the tie to the code: src/polyseed.c as TRANSLATED on this run (Gen/CApi.v) ---- *)
 From Coq Require Import String.
-From PS Require Import Base GFDefs PackDefs StoreDefs MiscDefs StrDefs LangDefs ApiDefs SpecDefs SpecApi GFProofs PackProofs StoreProofs RefineProofs CTieBase CTieLang CTiePhrase CTiePhraseEv CTieSplit CTieApi CTieDecode CTieEncode CTieLocals CTieInject CTieCmp CTieSearch CTieClosed CodeTheorems.
+From PS Require Import Base GFDefs PackDefs StoreDefs MiscDefs StrDefs LangDefs ApiDefs SpecDefs SpecApi GFProofs PackProofs StoreProofs RefineProofs RoundTrip CTieBase CTieLang CTiePhrase CTiePhraseEv CTieSplit CTieApi CTieDecode CTieEncode CTieLocals CTieInject CTieCmp CTieSearch CTieClosed CodeTheorems.
 From PS.Gen Require Import Consts PrivConsts Langs.
 From PS.Gen Require CFuns.
 From PS.Gen Require CApi.
 '''
 PLAN = {
- 'C01': [('api_encode','tie_encode','polyseed_encode as translated against the mirror step: the phrase written is the words of the 16 coefficients joined by the separator, composed when the language asks for it'),
+ 'C01': [('roundtrip','code_roundtrip_explicit','ON THE CODE: the phrase the translated polyseed_encode writes for a live seed of any reachable state, handed as a C string to the translated polyseed_decode_explicit (whose word search is the translated polyseed_lang_find_word), gives a new block holding the same struct - ties composed with C01_roundtrip_explicit; hypotheses: libc bsearch by contract, the injected normalisers (NormOK), fuel'),
+         ('api_encode','tie_encode','polyseed_encode as translated against the mirror step: the phrase written is the words of the 16 coefficients joined by the separator, composed when the language asks for it'),
          ('api_decode_explicit','tie_decode_explicit','polyseed_decode_explicit as translated against the mirror step')],
  'C03': [('api_encode','tie_encode','polyseed_encode as translated: coefficient 0 is the stored check value, coefficient 1 carries the coin, word i of the output is word number coefficient i of the list')],
  'C17': [('write_str','tie_write_str','write_str as translated: the bytes of the word at the offset, the offset advanced by its length - while it fits the buffer'),
